@@ -119,9 +119,38 @@ Fixpoint versions_own (seen : list (blk * Z)) (l : list pev) : bool :=
   | _ :: l' => versions_own seen l'
   end.
 
+(** R6 (a pointer is validated before it is followed): olc_art.hpp's own rule
+    "a check() is required before acting on [node] by taking the lock".
+    After a field load from a node that the thread neither holds nor owns,
+    no OTHER node may be read-locked before that node has been validated
+    successfully (check / read-unlock / upgrade); a failed validation abandons
+    the attempt, and read-locking the root pointer lock starts a new one. *)
+Fixpoint ptr_validated (ho : sets) (pending : option blk) (l : list pev) : bool :=
+  match l with
+  | [] => true
+  | e :: l' =>
+      let ho' := upd ho e in
+      match e with
+      | PLoad n =>
+          if existsb (beq n) (fst ho) || existsb (beq n) (snd ho) then ptr_validated ho' pending l'
+          else ptr_validated ho' (Some n) l'
+      | PCheck n true _ | PUpgrade n true _ =>
+          ptr_validated ho' (match pending with Some m => if beq m n then None else pending | None => None end) l'
+      | PCheck _ false _ | PUpgrade _ false _ => ptr_validated ho' None l'
+      | PRLock c ok w =>
+          if beq c root_blk then ptr_validated ho' None l'
+          else match pending with
+               | Some m => if beq m c then ptr_validated ho' (if ok then pending else None) l' else false
+               | None => ptr_validated ho' (if negb ok && Z.eqb w 1 then None else pending) l'
+               end
+      | _ => ptr_validated ho' pending l'
+      end
+  end.
+
 Definition op_ok (l : list pev) : bool :=
   let a := last_attempt l in
-  loads_covered ([], allocs l) a && coupled a && match held_at_end l with [] => true | _ => false end && versions_own [] l.
+  loads_covered ([], allocs l) a && coupled a && match held_at_end l with [] => true | _ => false end && versions_own [] l
+  && ptr_validated ([], allocs l) None l.
 
 (** scans: the iterator's saved versions (R4), and R1 for scans: every field
     load from a node is followed, later in the same scan, by a SUCCESSFUL
@@ -144,4 +173,4 @@ Fixpoint scan_loads_covered (l : list pev) : bool :=
       | _ => true
       end && scan_loads_covered l'
   end.
-Definition scan_ok (l : list pev) : bool := versions_own [] l && scan_loads_covered l.
+Definition scan_ok (l : list pev) : bool := versions_own [] l && scan_loads_covered l && ptr_validated ([], []) None l.
